@@ -19,3 +19,15 @@ pub open spec fn is_neg(r: v1::Function, a: v1::Function) -> bool {
     &&& fn_ids(r).subset_of(fn_ids(a))
     &&& fn_fin(a) ==> fn_fin(r) && forall|m: Map<u64, F64>| #![trigger fn_val(r, m)] fn_val(r, m) == -fn_val(a, m) - neg_rem(a, m)
 }
+// The operators are pure: their result is a function of the operands.  Naming that function lets contracts of callers
+// (penalty methods, slack conversions) state WHICH expression was built, and ghost lemmas evaluate it.
+pub uninterp spec fn fn_add(a: v1::Function, b: v1::Function) -> v1::Function;
+pub uninterp spec fn fn_mul(a: v1::Function, b: v1::Function) -> v1::Function;
+pub uninterp spec fn fn_neg(a: v1::Function) -> v1::Function;
+pub uninterp spec fn par_mul(p: v1::Parameter, f: v1::Function) -> v1::Function;   // &Parameter * Function
+pub uninterp spec fn pmul_rem(p: u64, f: v1::Function, m: Map<u64, F64>) -> real;
+pub open spec fn is_par_prod(r: v1::Function, p: v1::Parameter, f: v1::Function) -> bool {
+    &&& r.function is Some
+    &&& fn_ids(r).subset_of(fn_ids(f).insert(p.id))
+    &&& fn_fin(f) ==> fn_fin(r) && forall|m: Map<u64, F64>| #![trigger fn_val(r, m)] fn_val(r, m) == sval(m, p.id) * fn_val(f, m) - pmul_rem(p.id, f, m)
+}
